@@ -279,7 +279,7 @@ func TestVerifC04Add(t *testing.T) {
 // `route weight` over services and tags: the share w is spread over all matching targets.
 func TestVerifC04WeightCmd(t *testing.T) {
 	L := ev.Begin("C04", "c04-weightcmd", "exploration",
-		"routes of 2..4 targets (2 services x tag sets {none,a,b,a+b}, initial weight dynamic or 0.2) followed by every `route weight` form (service / tags / service+tags) with w over 8 values; oracle: matching targets get w/n each, others keep theirs, then the same weight/ring/rr/rnd checks as c04-add. non-trivial = the command matches >=1 and <all targets")
+		"routes of 2..4 targets (2 services x tag sets {none,a,b,a+b}, initial weight dynamic or 0.2) followed by every `route weight` form (service / tags / service+tags) with w over 8 values, in half of the cases followed by one more `route add` on the same route; oracle: matching targets get w/n each, others keep theirs, then the same weight/ring/rr/rnd checks as c04-add. non-trivial = the command matches >=1 and <all targets")
 	type tdef struct {
 		svc  string
 		tags string
@@ -351,6 +351,11 @@ func TestVerifC04WeightCmd(t *testing.T) {
 				sb.WriteString("\n")
 				for _, j := range match {
 					fixed[j] = w / float64(len(match))
+				}
+				if (si+len(cm.tags))%2 == 1 {
+					// the route keeps growing after the weight command: one more target of a third service
+					fmt.Fprintf(&sb, "route add sc /p http://10.0.0.9:80/\n")
+					fixed = append(fixed, 0)
 				}
 				c := map[string]interface{}{"table": strings.Split(strings.TrimSpace(sb.String()), "\n"), "expected_fixed": fixed}
 				L.Case()
